@@ -74,11 +74,13 @@ func (e *ULeafSafe) SafeDetails() []string         { return []string{e.SafePart}
 // Marshal reports an error...): the encoder must drop the payload and go on.
 type ULeafBadProto struct{ Msg string }
 
-func (e *ULeafBadProto) Error() string            { return e.Msg }
-func (e *ULeafBadProto) Reset()                   { *e = ULeafBadProto{} }
-func (e *ULeafBadProto) String() string           { return e.Msg }
-func (e *ULeafBadProto) ProtoMessage()            {}
-func (e *ULeafBadProto) Marshal() ([]byte, error) { return nil, goerrors.New("marshal: required field not set") }
+func (e *ULeafBadProto) Error() string  { return e.Msg }
+func (e *ULeafBadProto) Reset()         { *e = ULeafBadProto{} }
+func (e *ULeafBadProto) String() string { return e.Msg }
+func (e *ULeafBadProto) ProtoMessage()  {}
+func (e *ULeafBadProto) Marshal() ([]byte, error) {
+	return nil, goerrors.New("marshal: required field not set")
+}
 
 // UWrapBadProto is the wrapper counterpart of ULeafBadProto.
 type UWrapBadProto struct {
@@ -86,12 +88,14 @@ type UWrapBadProto struct {
 	Cause error
 }
 
-func (e *UWrapBadProto) Error() string            { return e.Msg + ": " + e.Cause.Error() }
-func (e *UWrapBadProto) Unwrap() error            { return e.Cause }
-func (e *UWrapBadProto) Reset()                   { *e = UWrapBadProto{} }
-func (e *UWrapBadProto) String() string           { return e.Msg }
-func (e *UWrapBadProto) ProtoMessage()            {}
-func (e *UWrapBadProto) Marshal() ([]byte, error) { return nil, goerrors.New("marshal: required field not set") }
+func (e *UWrapBadProto) Error() string  { return e.Msg + ": " + e.Cause.Error() }
+func (e *UWrapBadProto) Unwrap() error  { return e.Cause }
+func (e *UWrapBadProto) Reset()         { *e = UWrapBadProto{} }
+func (e *UWrapBadProto) String() string { return e.Msg }
+func (e *UWrapBadProto) ProtoMessage()  {}
+func (e *UWrapBadProto) Marshal() ([]byte, error) {
+	return nil, goerrors.New("marshal: required field not set")
+}
 
 // UWrapStack is an application-defined (unregistered) wrapper that captures
 // its own stack and exposes it pkg/errors-style through StackTrace().
